@@ -43,6 +43,7 @@ class Check:
         self.undecided = []
         self.notes = []
         self.extra = {}
+        self.more_instances = {}
 
     # ----------------------------------------------------------------- registration
     def add_function(self, info):
@@ -57,6 +58,16 @@ class Check:
 
     def lemma(self, label, hyps, goal, func="spec", meta=None):
         self.obls.append(Obl(label, func, 0, hyps, goal, kind="lemma", meta=meta))
+
+    def chain(self, label, hyps, steps, func="spec"):
+        """Lemma chain: steps = [(name, formula, use_hyps: bool, [names of earlier steps used])]; each step is its own
+        obligation proved from the selected hypotheses/earlier steps (ring identity + bounds per step, never one big query).
+        The last step is the lemma itself."""
+        proved = {}
+        for name, f, use_hyps, uses in steps:
+            hy = (list(hyps) if use_hyps else []) + [proved[u] for u in uses]
+            self.obls.append(Obl("%s.%s" % (label, name) if name else label, func, 0, hy, f, kind="lemma"))
+            proved[name] = f
 
     def twin(self, label, hyps, goal, func="spec"):
         """must-fail twin: an obligation with a hypothesis dropped; the solver must refute it (vacuity guard)."""
@@ -185,6 +196,9 @@ class Check:
         return True
 
     def handle_refuted(self, o, mine):
+        if any(v[0] == o.label for v in self.violations) and not mine:
+            self.more_instances[o.label] = self.more_instances.get(o.label, 0) + 1
+            return
         for f in mine:
             if f.get("obligation") != o.label and not (f.get("obligation", "").endswith("*") and o.label.startswith(f["obligation"][:-1])):
                 continue
@@ -221,6 +235,9 @@ class Check:
                "solver_model": _jsonable(o.info), "backend": o.backend,
                "replayed_on_real_code": reproduced, "replay_input": _jsonable(inp), "replay_output": text,
                "meta": _jsonable({k: v for k, v in o.meta.items() if k != "syms"})}
+        if any(v[0] == o.label for v in self.violations):
+            self.more_instances[o.label] = self.more_instances.get(o.label, 0) + 1
+            return
         path = self.write_replay(o.label, doc)
         self.violations.append((o.label, path, text, not bool(reproduced)))
 
